@@ -64,6 +64,8 @@ func c22LoadCorpus() {
 		c22Corpus = append(c22Corpus,
 			"language g(go);\n:: lexer\n'a': /a/\n:: parser\n%input A;\nA: 'a' ;\n",
 			"language g(go);\neventBased = true\n:: lexer\n%s initial, x;\nid: /[a-z]+/ (class)\n'kw': /kw/\n<x> 'b': /b/ { l.State = StateInitial }\n:: parser lalr(2)\n%input A, B no-eoi;\n%left 'kw';\n%flag F = false;\nA<flag X = true> -> N: [X] id | [!X && F] 'kw' | (?= !B) 'kw' id ;\nB: (id separator 'kw')+ set(~id & first A)? .m { _ = $1 } 'kw' %prec 'kw' ;\n%generate S = set(follow A | ~precede B);\n%assert empty set(first A & first B);\n",
+			// a conflict that needs two tokens of lookahead, with every table option on
+			"language g(go);\noptimizeTables = true\ndefaultReduce = true\nminimizeDFA = true\n:: lexer\n'a': /a/\n'b': /b/\n'c': /c/\n'd': /d/\n:: parser lalr(2)\n%input S, T no-eoi;\nS: A 'a' 'b' | B 'a' 'c' ;\nA: 'd' ;\nB: 'd' ;\nT: S 'd' | 'a' ;\n",
 		)
 		c22Tokens = append(c22Tokens, "{", "}", "(", ")", "[", "]", "<", ">", ";", ":", "|", "::", "->", "=", "%", "(?=", "%%", "/a/", "/[/", "'", "\"", "\\", "set(", "~", "&", "?", "*", "+", "$", "@", "lalr(", "-1", "99999999999999999999", "\xff", "\x00", "é", "%input", "%left", "%flag", "%generate", "%assert", "%expect", "%interface", "%inject", "no-eoi", "separator", "as", "true", "false", "error", "eoi", "invalid_token", "(class)", "(space)", "%s", "%x", "language", "lexer", "parser")
 	})
@@ -243,7 +245,7 @@ func trimText(s string) string {
 func TestC22(t *testing.T) {
 	p := &prop[c22Case]{
 		ID:   "C22",
-		Rule: "grammar texts: 90% a file from the repository (5 shipped grammars and every compiler/gen/syntax testdata grammar, «» markers removed) or one of two hand-written feature-dense seeds, 10% a generated grammar (C17 generator), with 0..4 mutations: replace/insert a token taken from any corpus file or a list of hostile tokens, delete a byte range, duplicate/delete a line, splice lines from another grammar, flip an option value, overwrite a raw byte, truncate; Params CheckOnly/Verbose/DebugTables in all 8 combinations. compiler.Compile must return (panics and log.Fatal are trapped; 60 s watchdog); every status.Error must have 0<=Offset<=EndOffset<=len(text) with Line/Column consistent with the offset; a tm.SyntaxError likewise (offset, line). Thorough adds native coverage-guided fuzzing (FuzzC22). Non-trivial: the text parses and produces a semantic diagnostic or reaches table generation; distinct by text.",
+		Rule: "grammar texts: 90% a file from the repository (5 shipped grammars and every compiler/gen/syntax testdata grammar, «» markers removed) or one of three hand-written feature-dense seeds (one with a conflict that needs lalr(2) under every table option), 10% a generated grammar (C17 generator), with 0..4 mutations: replace/insert a token taken from any corpus file or a list of hostile tokens, delete a byte range, duplicate/delete a line, splice lines from another grammar, flip an option value, overwrite a raw byte, truncate; Params CheckOnly/Verbose/DebugTables in all 8 combinations. compiler.Compile must return (panics and log.Fatal are trapped; 60 s watchdog); every status.Error must have 0<=Offset<=EndOffset<=len(text) with Line/Column consistent with the offset; a tm.SyntaxError likewise (offset, line). Thorough adds native coverage-guided fuzzing (FuzzC22). Non-trivial: the text parses and produces a semantic diagnostic or reaches table generation; distinct by text.",
 		Quick: 4000, Thorough: 80000,
 		Gen:      c22Gen,
 		Check:    c22Check,
